@@ -13,6 +13,9 @@ use.  `features` selects optional input classes, several of which are known-find
   arg_probe       both custom scalars + root fields probe0..n whose arguments cover all wrapper shapes (C03/C07)
   subscriptions   a Subscription root type + subscription operations (async client forced); drawn from a
                   SEPARATE rng so that the schema/operations of features=() are unchanged     (C15)
+  local_clash     operation variables named like the locals of a generated method / names plugins introduce
+                  (query, variables, response, data, _query, gql, Optional, List, Any, TYPE_CHECKING, UNSET, ...);
+                  the choice is drawn from rng2, features=() unchanged                          (C15)
   toplevel        extra operations shaped for C15: exactly one top-level field of every kind (leaf, enum,
                   custom scalar, list, object, interface, union, aliased, __typename only, via a fragment on
                   the root type) and one with several; separate rng as well                  (C15)
@@ -61,6 +64,8 @@ SAFE_VAR_NAMES = ["userId", "firstName", "HTTPCode", "id2", "class", "from", "No
                   "UNSET", "execute", "url", "headers"]
 CLASH_VAR_NAMES = ["self", "kwargs", "gql", "foo_bar", "self_", "kwargs_", "class_", "_query", "_data", "Query",
                    "_userId", "user_id", "ser_DateTime", "_1"]
+LOCAL_CLASH_NAMES = ["query", "variables", "response", "data", "_query", "gql", "Optional", "List", "Any", "Dict",
+                     "Union", "TYPE_CHECKING", "UNSET", "UnsetType", "AsyncIterator", "Upload", "BaseModel"]
 WRAPPERS = ["{}", "{}!", "[{}]", "[{}!]", "[{}]!", "[{}!]!", "[[{}]]", "[[{}!]!]!"]
 
 
@@ -423,6 +428,12 @@ class Gen:
 
     def variable(self, type_str: str, default=None) -> str:
         n = f"v{len(self.opvars)}"
+        if "local_clash" in self.features and self.rng2.random() < 0.6:
+            taken = {x for x, _t, _d in self.opvars}
+            free = [x for x in LOCAL_CLASH_NAMES if x not in taken and x.lstrip("_") not in taken
+                    and ("_" + x) not in taken]
+            if free:
+                n = self.rng2.choice(free)
         if "var_names" in self.features or "var_names_clash" in self.features:
             used = {x[0] for x in self.opvars}
             pool = SAFE_VAR_NAMES
